@@ -163,6 +163,14 @@ CHECKS = {
               'have one row per (construction and) simulated year with consecutive labels and every cell equal to the series value.'),
         design_ref='DESIGN.md section 4 C09',
         note='report_spec.py is hand-written from the meaning of the labels; S-DAC-GT block unmodelled; percent-magnitude lines encoded as such.'),
+    'C10': dict(
+        engine='xplore',
+        technique='bounded exhaustive exploration: the generated report corpus of every writer branch combination plus all stored reports, client parser compared field by field and cell by cell with an independent tokeniser; JSON against the snapshot; re-parsing under three hash seeds in fresh interpreters',
+        category='exploration',
+        text=('Every non-empty client field must be the number and unit of the line with exactly that label in its own section; every profile table '
+              'row for row; as_csv() re-read equals the result; JSON quantities equal the pre-print snapshot; parses identical under PYTHONHASHSEED 0/1/12345.'),
+        design_ref='DESIGN.md section 4 C10',
+        note='JSON-vs-report decided as JSON-vs-snapshot (C09 ties snapshot to text).'),
 }
 
 
